@@ -35,12 +35,22 @@ func (x *Exec) ufCall(param string, args []Val, sig *types.Signature, st *State)
 		x.declUF(name, fmt.Sprintf("(%s) %s", strings.Join(sorts, " "), x.S.SortOf(rt)))
 		var r Term
 		if len(terms) == 0 {
-			r = Term{"(" + name + ")", x.S.SortOf(rt)}
+			r = Term{name, x.S.SortOf(rt)} // a nullary function symbol is written bare
 		} else {
 			r = Term{app(name, terms...), x.S.SortOf(rt)}
 		}
 		if x.inQuant == 0 {
 			x.assume(x.typeInv(r, rt, 0))
+			if st != nil {
+				// the callee may have allocated what it returns: the watermark moves
+				if rb := x.refsBelow(r, rt, st.Alloc, 0); rb.S != "true" {
+					na := x.declare("alloc@u", "Int")
+					x.assume(Term{app(">=", na, st.Alloc), "Bool"})
+					st.Alloc = na
+					x.markAlloc()
+					x.assume(x.refsBelow(r, rt, na, 0))
+				}
+			}
 		}
 		outs = append(outs, Val{T: r, Typ: rt})
 	}
@@ -87,4 +97,22 @@ func sigParams(fn interface {
 		tys = append(tys, p.Type())
 	}
 	return names, tys
+}
+
+// ifaceUF applies the uninterpreted function that stands for a pure interface
+// method (receiver first).
+func (x *Exec) ifaceUF(is *IfaceSpec, ms *IfaceMethodSpec, recv Val, args []Val, sig *types.Signature, st *State) Val {
+	all := append([]Val{recv}, args...)
+	// contexts and other opaque arguments do not influence the abstract result:
+	// keep only the receiver and arguments of basic type
+	keep := []Val{recv}
+	for i, a := range args {
+		if i < sig.Params().Len() {
+			if _, ok := sig.Params().At(i).Type().Underlying().(*types.Basic); ok {
+				keep = append(keep, a)
+			}
+		}
+	}
+	_ = all
+	return x.ufCall("im."+is.Name+"."+ms.Name, keep, sig, st)
 }
